@@ -364,6 +364,9 @@ fn has_modifier_blocks_tag(opts: &[String]) -> bool {
 pub fn gen_list(r: &mut Rng, p: &Profile, max: usize) -> Vec<String> {
     let n = 1 + r.below(max);
     let mut rules: Vec<String> = Vec::with_capacity(n + 2);
+    if p.domains && r.chance(1, 10) {
+        rules.extend(gen_domain_cluster(r, p));
+    }
     for _ in 0..n {
         if !rules.is_empty() && r.chance(1, 12) {
             // exact duplicate
@@ -625,12 +628,58 @@ pub fn gen_cluster(r: &mut Rng, p: &Profile) -> Vec<String> {
     out
 }
 
+/// Token-less rules (no pattern, or only one-character runs) restricted by `domain=` lists drawn
+/// from a small pool: they are indexed under their domains, single-domain and multi-domain rules
+/// share buckets, and a multi-domain rule is one shared object stored in several buckets.
+pub fn gen_domain_cluster(r: &mut Rng, p: &Profile) -> Vec<String> {
+    let pool = ["a.com", "b.co.uk", "example.org", "track.io"];
+    let n = 3 + r.below(6);
+    let mut out = vec![];
+    for _ in 0..n {
+        let mut s = String::new();
+        if p.exceptions && r.chance(1, 6) {
+            s.push_str("@@");
+        }
+        s.push_str(r.ps(&["", "", "*", "a/b", "-x-"]));
+        let mut opts: Vec<String> = vec![];
+        let t = r.ps(&["script", "image", "xmlhttprequest", "script,image", "", "stylesheet", "~image"]);
+        if !t.is_empty() {
+            opts.push(t.to_string());
+        }
+        let k = 1 + r.below(3);
+        let mut doms: Vec<&str> = vec![];
+        for _ in 0..k {
+            let d = r.ps(&pool);
+            if !doms.contains(&d) {
+                doms.push(d);
+            }
+        }
+        opts.push(format!("domain={}", doms.join("|")));
+        if r.chance(1, 8) {
+            opts.push(r.ps(&["third-party", "~third-party"]).into());
+        }
+        if p.important && r.chance(1, 10) {
+            opts.push("important".into());
+        }
+        if p.tags && r.chance(1, 10) {
+            opts.push(format!("tag={}", r.ps(TAGS)));
+        }
+        s.push('$');
+        s.push_str(&opts.join(","));
+        out.push(s);
+    }
+    out
+}
+
 /// A list made of a few clusters plus some unrelated rules, shuffled.
 pub fn gen_clustered_list(r: &mut Rng, p: &Profile) -> Vec<String> {
     let mut rules = vec![];
     let k = 1 + r.below(3);
     for _ in 0..k {
         rules.extend(gen_cluster(r, p));
+    }
+    if p.domains && r.chance(1, 3) {
+        rules.extend(gen_domain_cluster(r, p));
     }
     let extra = r.below(6);
     for _ in 0..extra {
